@@ -13,9 +13,14 @@ COMB = ['And2', 'Or2', 'Not', 'Buf', 'Mux2', 'Sub', 'Mul', 'AddCarryIn', 'Consta
 SEQ = ['Reg', 'Sequence', 'SynchronousMemory', 'AutoReset']
 
 
-def random_plan(rng, n_nodes, seq_ratio=(1, 4), wmax=8, kinds=None, allow_feedback=True, extreme=False):
+def random_plan(rng, n_nodes, seq_ratio=(1, 4), wmax=8, kinds=None, allow_feedback=True, extreme=False, n_domains=0):
+    """n_domains > 0: a tree of hierarchy containers ('domains'); container 0 is the HWSystem (ungated clock);
+    each other container has a parent container and optionally its own gated ClockDriver whose enable is a wire
+    of the design (chosen late: may be a register inside the gated domain itself)."""
     n_in = rng.randint(1, 4)
-    plan = {'inputs': [(f'in{i}', rng.randint(1, wmax)) for i in range(n_in)], 'nodes': []}
+    plan = {'inputs': [(f'in{i}', rng.randint(1, wmax)) for i in range(n_in)], 'nodes': [], 'domains': [{'parent': None, 'gated': False}]}
+    for di in range(n_domains):
+        plan['domains'].append({'parent': rng.randint(0, di), 'gated': rng.chance(2, 3), 'enable': None})
     nodes = plan['nodes']
     comb = [k for k in COMB if (kinds is None or k in kinds)]
     seq = [k for k in SEQ if (kinds is None or k in kinds)]
@@ -37,7 +42,7 @@ def random_plan(rng, n_nodes, seq_ratio=(1, 4), wmax=8, kinds=None, allow_feedba
     for j in range(n_nodes):
         is_seq = seq and rng.chance(*seq_ratio)
         kind = rng.choice(seq) if is_seq else rng.choice(comb)
-        nd = {'kind': kind, 'name': f'n{j}', 'ins': [], 'outw': [], 'params': {}}
+        nd = {'kind': kind, 'name': f'n{j}', 'ins': [], 'outw': [], 'params': {}, 'dom': rng.randint(0, n_domains)}
         W = rng.randint(1, wmax)
         if kind in ('And2', 'Or2', 'Sub', 'Mul', 'SignedMul'):
             nd['ins'] = [pick(j), pick(j)]
@@ -122,6 +127,9 @@ def random_plan(rng, n_nodes, seq_ratio=(1, 4), wmax=8, kinds=None, allow_feedba
             else:
                 aw, W = nd['params']['aw'], nd['outw'][0]
                 nd['ins'] = [pick(top, aw), pick(top, aw), pick(top, 1), pick(top, W)]
+    for dm in plan['domains'][1:]:
+        if dm['gated']:
+            dm['enable'] = pick(n_nodes, 1) if rng.chance(3, 4) else pick(n_nodes)
     return plan
 
 
@@ -159,9 +167,17 @@ def build(plan, inst_order=None, wire_order=None, sysname=None):
         return W[ref]
     leaves = {}
     order = list(range(len(nodes))) if inst_order is None else list(inst_order)
+    top = sysobj
+    conts = [top]
+    for di, dm in enumerate(plan.get('domains', [])[1:], 1):
+        c = py4hw.Logic(conts[dm['parent']], f'dom{di}')
+        if dm['gated']:
+            c.clockDriver = py4hw.ClockDriver(f'gclk{di}', base=top.clockDriver, enable=W[tuple(dm['enable'])])
+        conts.append(c)
     for j in order:
         nd = nodes[j]
         k, nm, p = nd['kind'], nd['name'], nd['params']
+        sysobj = conts[nd.get('dom', 0)]
         ins = [W[r] for r in nd['ins']]
         o = [W[('node', j, x)] for x in range(len(nd['outw']))]
         if k in ('And2', 'Or2'):
@@ -198,10 +214,10 @@ def build(plan, inst_order=None, wire_order=None, sysname=None):
         elif k == 'SynchronousMemory':
             aw = p['aw']
             # address wires of exactly aw bits fed through Bufs (width adaptation by the wire mask)
-            ra = sysobj.wire(nm + '_ra', aw)
-            wa = sysobj.wire(nm + '_wa', aw)
-            we = sysobj.wire(nm + '_we', 1)
-            wd = sysobj.wire(nm + '_wd', nd['outw'][0])
+            ra = top.wire(nm + '_ra', aw)
+            wa = top.wire(nm + '_wa', aw)
+            we = top.wire(nm + '_we', 1)
+            wd = top.wire(nm + '_wd', nd['outw'][0])
             B.Buf(sysobj, nm + '_bra', ins[0], ra)
             B.Buf(sysobj, nm + '_bwa', ins[1], wa)
             B.Buf(sysobj, nm + '_bwe', ins[2], we)
@@ -212,6 +228,8 @@ def build(plan, inst_order=None, wire_order=None, sysname=None):
         else:
             raise Exception('unknown kind ' + k)
     inputs = [W[('in', i)] for i in range(len(plan['inputs']))]
+    sysobj = top
+    sysobj._containers = conts
     return sysobj, inputs, W, leaves
 
 
@@ -232,4 +250,5 @@ def random_ops(rng, inputs, n_ops, extreme=False):
 
 
 def plan_summary(plan):
-    return {'inputs': plan['inputs'], 'nodes': [(n['kind'], n['ins'], n['outw'], n['params']) for n in plan['nodes']]}
+    return {'inputs': plan['inputs'], 'domains': plan.get('domains'),
+            'nodes': [(n['kind'], n['ins'], n['outw'], n['params'], n.get('dom', 0)) for n in plan['nodes']]}
